@@ -114,7 +114,7 @@ def run(ctx):
     stride = 7 if ctx.quick else 5
     sub = pl[::stride]
     k = und = 0
-    for cnt, vs, u in ctx.pmap(judge_obs_points, sub, chunksize=2):
+    for cnt, vs, u in ctx.pmap_forked(judge_obs_points, sub, chunksize=2):
         ctx.add_violations(vs)
         k += cnt
         und += u
@@ -125,7 +125,7 @@ def run(ctx):
         named = [v for _, v in NAMED_LIST]
         jobs = [(a, b) for a in named for b in named]
         q = und = 0
-        for res in ctx.pmap(named_pair, jobs, chunksize=16):
+        for res in ctx.pmap_forked(named_pair, jobs, chunksize=16):
             vs, u = res
             ctx.add_violations(vs)
             und += u
